@@ -9,7 +9,7 @@ trap 'git -C /repo worktree remove --force '$wt EXIT
 cp -r /repo/sigpyproc.egg-info $wt/ 2>/dev/null
 cd $wt
 git apply $src/patch.diff || { echo "APPLY FAILED"; exit 3; }
-tests=$(/venv/bin/python -m pytest -q -p no:cacheprovider -n 12 --timeout=900 2>&1 | tail -1)
+tests=$(/venv/bin/python -m pytest -q -p no:cacheprovider -n 8 --timeout=900 2>&1 | tail -1)
 echo "tests with patch: $tests"
 /venv/bin/python $src/demo.py >/tmp/demo_$$.out 2>&1; d1=$?
 echo "demo with patch exit=$d1"; tail -3 /tmp/demo_$$.out
